@@ -563,16 +563,37 @@ def r20_1(ctx, rr):
                 rebuilds.append((i, e))
         rr.instances += 1
         key = "%s:seeks-to-start" % short_fn(b.key)
-        ok = len(seeks) >= 1 and not seeks[0][1]["conds"]
+        # decided on the paths of the function: every path that returns Ok(..) has first passed a successful seek to
+        # the start (its Result tried with `?`, or matched and the Ok arm taken)
+        import paths as _paths
+        seek_nodes = set(id(e_["node"]) for _i, e_ in seeks)
+        ok = bool(seeks)
         if ok:
-            ok = is_tried(F, pm, seeks[0][1]["node"]) == "?"
-        if ok:
-            # no way out with Ok before the seek: every `return` that precedes it hands back an error
-            order = list(walk(b.body))
-            pos = {id(x): i for i, x in enumerate(order)}
-            sp = pos[id(seeks[0][1]["node"])]
-            early = [x for x in order if x.get("k") == "Ret" and pos[id(x)] < sp and not (("e" in x) and (show(F, x["e"]).startswith("v1::Err(") or "from_residual" in show(F, x["e"]) or "FromResidual" in show(F, x["e"])))]
-            ok = not early
+            try:
+                all_paths = _paths.enum_paths(b.body)
+            except _paths.Unsupported:
+                all_paths = None
+            if all_paths is None:
+                ok = False
+            else:
+                n_ok_paths = 0
+                for pth in all_paths:
+                    ret = [e_ for e_ in pth if e_[0] == "ret"][-1][1]
+                    rs = show(F, ret) if ret is not None else ""
+                    if not (rs.startswith("v1::Ok(") or (ret is not None and ret.get("k") == "MethodCall" and ret.get("name") in ("map", "and_then") and any(id(x) in seek_nodes for x in walk(ret)))):
+                        continue
+                    n_ok_paths += 1
+                    sought = False
+                    if ret is not None and any(id(x) in seek_nodes for x in walk(ret)):
+                        sought = True     # `seek(..).map(|_| self)`-like tail: Ok only through the seek's Ok
+                    for e_ in pth:
+                        if e_[0] == "arm" and any(id(x) in seek_nodes for x in walk(e_[1]["e"])):
+                            nm_ = e_[2]["pat"].get("name", "")
+                            if nm_ in ("Ok", "Continue"):
+                                sought = True
+                    if not sought:
+                        ok = False
+                ok = ok and n_ok_paths >= 1
         rr.ob(ok, key=key, sample={"fn": b.key, "seek": show(F, seeks[0][1]["node"]) if seeks else None})
         if not ok:
             rr.violate(key, "%s must unconditionally seek its source to the start (`seek(SeekFrom::Start(0))?` or `rewind()?`) before returning Ok: otherwise the second pass continues from the current offset" % b.key, b.span)
@@ -625,54 +646,86 @@ def r20_2(ctx, rr):
     s = show(F, nb.body)
     rr.instances += 1
     rr.check(s.strip().startswith("{\n  line.clear();") or "line.clear();" in s.split("match")[0], "lenders::next:clears-buffer", "the shared line reader must clear the buffer before reading", nb.span, props=["C20"])
-    m = [n for n in walk(nb.body) if n.get("k") == "Match" and n["e"].get("k") == "MethodCall" and n["e"]["name"] == "read_line"]
+    m = [n for n in walk(nb.body) if n.get("k") == "Match" and any(x.get("k") == "MethodCall" and x["name"] == "read_line" for x in walk(n["e"]))]
     if len(m) != 1:
-        raise AnchorMissing("lenders::next: expected `match buf.read_line(line)`")
+        raise AnchorMissing("lenders::next: expected one match on `buf.read_line(line)`")
+    rl = [x for x in walk(m[0]["e"]) if x.get("k") == "MethodCall" and x["name"] == "read_line"][0]
     # the line is read from the reader itself (an adapter such as take() would cut long lines) into the
     # caller's buffer
     rr.instances += 1
     pids = [p_.get("id") for p_ in nb.params]
-    recv = m[0]["e"]["recv"]
+    recv = rl["recv"]
     while recv.get("k") in ("AddrOf",) or (recv.get("k") == "Unary" and recv.get("op") == "*"):
         recv = recv["e"]
-    arg0 = m[0]["e"]["args"][0] if m[0]["e"].get("args") else {}
+    arg0 = rl["args"][0] if rl.get("args") else {}
     while arg0.get("k") in ("AddrOf",) or (arg0.get("k") == "Unary" and arg0.get("op") == "*"):
         arg0 = arg0["e"]
-    rr.check(recv.get("k") == "Path" and recv.get("id") == pids[0] and arg0.get("k") == "Path" and arg0.get("id") == pids[1], "lenders::next:reads-whole-line-from-reader", "the shared line reader must call read_line directly on its reader argument with the caller's buffer (found `%s`): an adapter in between changes what one item is" % show(F, m[0]["e"])[:100], nb.span, props=["C20"])
-    # every Err arm propagates the error, unconditionally
-    rr.instances += 1
-    err_arms = [a for a in m[0]["arms"] if a["pat"].get("name") == "Err" or show_pat(F, a["pat"]).startswith("Err")]
-    bad = [a for a in err_arms if "guard" in a or not show(F, a["body"]).startswith("v1::Some(v1::Err(")]
-    wild = [a for a in m[0]["arms"] if a["pat"].get("k") in ("PWild",) or (a["pat"].get("k") == "PBind" and not a["pat"].get("name", "")[:1].isupper())]
-    rr.check(bool(err_arms) and not bad and not wild, "lenders::next:every-error-propagated", "the shared line reader must hand every read error to the caller (`Err(e) => Some(Err(e))`, no guarded or catch-all arm): an error mapped to None is an input silently cut short", nb.span)
-    arms = {}
-    for a in m[0]["arms"]:
+    rr.check(recv.get("k") == "Path" and recv.get("id") == pids[0] and arg0.get("k") == "Path" and arg0.get("id") == pids[1], "lenders::next:reads-whole-line-from-reader", "the shared line reader must call read_line directly on its reader argument with the caller's buffer (found `%s`): an adapter in between changes what one item is" % show(F, rl)[:100], nb.span, props=["C20"])
+    # decided on the paths of the function (whatever its control-flow syntax): under Err(e) the exit returns
+    # Some(Err(e)); under Ok(0), None; otherwise Some(Ok(line)) after popping one LF iff the line ends with LF and then
+    # one CR iff what is left ends with CR
+    import paths as _paths
+    try:
+        all_paths = _paths.enum_paths(nb.body)
+    except _paths.Unsupported as e:
+        raise AnchorMissing("lenders::next: %s" % e)
+
+    def arm_kind(a):
         pat = a["pat"]
         nm = pat.get("name")
-        sub = None
-        if pat.get("ps"):
-            sub = pat["ps"][0]
-        elif pat.get("fields"):
-            sub = pat["fields"][0]["p"]
-        arms[(nm, show_pat(F, sub) if sub else None)] = a
+        if nm == "Err" and "guard" not in a:
+            return "err"
+        if nm == "Err":
+            return "err-guarded"
+        if nm == "Ok":
+            sub = pat["ps"][0] if pat.get("ps") else None
+            if sub is not None and sub.get("k") == "PLit" and str(sub.get("v")) == "0":
+                return "eof"
+            return "line"
+        return "catch-all"
+    problems = {"err": [], "eof": [], "strip": []}
+    kinds_seen = set()
+    for pth in all_paths:
+        arm = [e for e in pth if e[0] == "arm" and e[1] is m[0]]
+        if not arm:
+            continue
+        kind = arm_kind(arm[0][2])
+        kinds_seen.add(kind)
+        ret = [e for e in pth if e[0] == "ret"][-1][1]
+        rs = show(F, ret) if ret is not None else "()"
+        if kind in ("err", "err-guarded", "catch-all"):
+            if kind != "err" or not rs.startswith("v1::Some(v1::Err("):
+                problems["err"].append("a read error can leave through `%s` (%s arm)" % (rs[:60], kind))
+        elif kind == "eof":
+            if rs != "v1::None":
+                problems["eof"].append("Ok(0) leaves through `%s`" % rs[:60])
+        else:
+            if not rs.startswith("v1::Some(v1::Ok("):
+                problems["strip"].append("a line read leaves through `%s`" % rs[:60])
+                continue
+            # replay the terminator tests and the pops after the match on this path
+            after = pth[pth.index(arm[0]) + 1:]
+            seq = []
+            for e in after:
+                if e[0] == "cond":
+                    lits = [x.get("v") for x in walk(e[1]) if x.get("k") == "Lit" and x.get("v") in ("\n", "\r")]
+                    neg = sum(1 for x in walk(e[1]) if x.get("k") == "Unary" and x.get("op") == "!") % 2 == 1
+                    if lits and any(x.get("k") == "MethodCall" and x["name"] == "ends_with" for x in walk(e[1])):
+                        seq.append(("test", lits[0], e[2] != neg))
+                if e[0] in ("expr", "let"):
+                    nd = e[1] if e[0] == "expr" else e[1].get("init", {})
+                    for x in walk(nd):
+                        if x.get("k") == "MethodCall" and x["name"] == "pop":
+                            seq.append(("pop",))
+            admissible = ([("test", "\n", False)], [("test", "\n", True), ("pop",), ("test", "\r", False)], [("test", "\n", True), ("pop",), ("test", "\r", True), ("pop",)])
+            if seq not in [list(x) for x in admissible]:
+                problems["strip"].append("the path %s is none of: no LF -> untouched; LF -> one pop, then CR -> a second pop" % seq)
     rr.instances += 1
-    ok = ("Err", "e") in arms and show(F, arms[("Err", "e")]["body"]).startswith("v1::Some(v1::Err(") and ("Ok", "0") in arms and show(F, arms[("Ok", "0")]["body"]) == "v1::None"
-    rr.check(ok, "lenders::next:eof-and-errors", "the line reader must map Ok(0) to None and Err(e) to Some(Err(e))", nb.span)
-    oka = [a for k, a in arms.items() if k[0] == "Ok" and k[1] != "0"]
+    rr.check("err" in kinds_seen and not problems["err"] and "catch-all" not in kinds_seen, "lenders::next:every-error-propagated", "the shared line reader must hand every read error to the caller (`Err(e) => Some(Err(e))`, no guarded or catch-all arm): an error mapped to None is an input silently cut short; %s" % "; ".join(problems["err"][:2]), nb.span)
     rr.instances += 1
-    ok = False
-    if oka:
-        body = oka[0]["body"]
-        ifs = [n for n in walk(body) if n.get("k") == "If"]
-        # if ends_with('\n') { pop; if ends_with('\r') { pop } }
-        if len(ifs) == 2 and "'\\n'" in repr(show(F, ifs[0]["c"])) or (len(ifs) == 2 and "ends_with" in show(F, ifs[0]["c"])):
-            outer, inner = ifs[0], ifs[1]
-            nested = any(x is inner for x in walk(outer["th"]))
-            pops = [x for x in walk(outer["th"]) if x.get("k") == "MethodCall" and x["name"] == "pop"]
-            c0 = [x for x in walk(outer["c"]) if x.get("k") == "Lit"]
-            c1 = [x for x in walk(inner["c"]) if x.get("k") == "Lit"]
-            ok = nested and len(pops) == 2 and c0 and c0[0].get("v") == "\n" and c1 and c1[0].get("v") == "\r" and "el" not in outer and "el" not in inner
-    rr.check(ok, "lenders::next:strips-terminator", "the line reader must strip exactly one trailing LF and then, only if an LF was stripped, one CR", nb.span, props=["C20"])
+    rr.check("eof" in kinds_seen and not problems["eof"] and "err" in kinds_seen and not problems["err"], "lenders::next:eof-and-errors", "the line reader must map Ok(0) to None and Err(e) to Some(Err(e)); %s" % "; ".join((problems["eof"] + problems["err"])[:2]), nb.span)
+    rr.instances += 1
+    rr.check("line" in kinds_seen and not problems["strip"], "lenders::next:strips-terminator", "the line reader must strip exactly one trailing LF and then, only if an LF was stripped, one CR; %s" % "; ".join(problems["strip"][:2]), nb.span, props=["C20"])
     # all line lenders use the shared reader
     nexts = [x for x in F.fns() if x.name == "next" and (x.impl_adt or "").endswith(("LineLender",)) and x.impl_trait and x.impl_trait.endswith("Lender")]
     for x in nexts:
